@@ -326,6 +326,22 @@ class Values(Relation):
                                   f'unit of {pn} compare unequal',
                                   f'{v!r} vs {w!r}')
                         nt = True
+                # ... while a value that DIFFERS (by a few 1e-6, 1e-9
+                # relative) stays different when written in another unit
+                for unit in (u.deg, u.rad, u.arcmin, u.arcsec):
+                    if unit == v.unit:
+                        continue
+                    for rel in (3e-6, 2e-9):
+                        w = (v * (1 + rel)).to(unit)
+                        if bool(w == v) or w.value == 0:
+                            continue
+                        try:
+                            P = R.copy(**{pn: w})
+                        except ValueError:
+                            continue
+                        self._unequal(ctx, cls, R, P, f'{pn} differs by a '
+                                      f'relative {rel:g} and is written in '
+                                      'another unit')
         ctx.nontrivial(nt)
 
     @staticmethod
